@@ -107,8 +107,7 @@ def c01_candidate(cand, maps):
     ori = "-" if row["rev"] else "+"
     for clause, detail in matching_problems(pairs, ori, len(ref["pos"]) if ref else None,
                                             len(qry["pos"]) if qry else None):
-        out.append(V("candidate-" + clause, detail,
-                     f"candidate|segs={sum(1 for s in row['segs'] if s['pos'])}|ori={ori}|frag={cand['shift'] > 0 or (qry is not None and cand['nq'] != len(qry['pos']))}",
+        out.append(V("candidate-" + clause, detail, "candidate|" + c01_diagnose(row, clause, ori),
                      record=f"q={cand['qry']} r={cand['ref']} pairs={pairs}"))
     return out
 
@@ -450,4 +449,4 @@ def c01_diagnose(row, clause, orientation):
             rel = "neighbours-of-an-emptied-segment"
         else:
             rel = "consecutive-segments"
-    return f"{rel}|nseg={'2' if len(nonempty) <= 2 else '3+'}"
+    return rel
